@@ -333,6 +333,16 @@ func (s *transactionStore) Watch(ctx context.Context, ch chan<- configapi.Transa
 			s.mu.Unlock()
 		}()
 
+		// Whichever way the watch ends, the channel is closed exactly once and the events the store may still
+		// hand to this watcher are drained: the store never blocks on a watcher that has gone away
+		defer func() {
+			close(ch)
+			go func() {
+				for range eventCh {
+				}
+			}()
+		}()
+
 		if options.replay {
 			if options.transactionID != "" {
 				entry, err := s.transactions.Get(ctx, options.transactionID)
@@ -346,19 +356,21 @@ func (s *transactionStore) Watch(ctx context.Context, ch chan<- configapi.Transa
 					transaction.Index = configapi.Index(entry.Index)
 					transaction.Version = uint64(entry.Version)
 					if ctx.Err() != nil {
-						close(ch)
 						return
 					}
-					ch <- configapi.TransactionEvent{
+					select {
+					case ch <- configapi.TransactionEvent{
 						Type:        configapi.TransactionEvent_REPLAYED,
 						Transaction: *transaction,
+					}:
+					case <-ctx.Done():
+						return
 					}
 				}
 			} else {
 				entries, err := s.transactions.List(ctx)
 				if err != nil {
 					log.Error(err)
-					close(ch)
 					return
 				}
 				for {
@@ -371,15 +383,18 @@ func (s *transactionStore) Watch(ctx context.Context, ch chan<- configapi.Transa
 						continue
 					}
 					if ctx.Err() != nil {
-						close(ch)
 						return
 					}
 					transaction := entry.Value
 					transaction.Index = configapi.Index(entry.Index)
 					transaction.Version = uint64(entry.Version)
-					ch <- configapi.TransactionEvent{
+					select {
+					case ch <- configapi.TransactionEvent{
 						Type:        configapi.TransactionEvent_REPLAYED,
 						Transaction: *transaction,
+					}:
+					case <-ctx.Done():
+						return
 					}
 				}
 			}
@@ -388,13 +403,12 @@ func (s *transactionStore) Watch(ctx context.Context, ch chan<- configapi.Transa
 		for {
 			select {
 			case event := <-eventCh:
-				ch <- event
+				select {
+				case ch <- event:
+				case <-ctx.Done():
+					return
+				}
 			case <-ctx.Done():
-				close(ch)
-				go func() {
-					for range eventCh {
-					}
-				}()
 				return
 			}
 		}
